@@ -38,11 +38,13 @@ type etcdProxy struct {
 	election  leader.LeaderElection
 	tlsConfig *tls.Config
 
+	// lock guards closed, client, err and curLeader: they are written by the check-leader loop
+	// and read by the request handlers (Txn, Watch and the goroutines Watch starts)
+	lock      sync.RWMutex
 	closed    chan struct{}
 	client    *clientv3.Client
 	err       error
 	curLeader string
-	lock      sync.RWMutex
 }
 
 func (e *etcdProxy) EtcdProxyEnabled() bool {
@@ -96,9 +98,9 @@ func (e *etcdProxy) resetClient() (reset bool) {
 func (e *etcdProxy) updateClient() {
 
 	if err := e.checkConn(); err != nil {
-		e.curLeader = ""
 		e.lock.Lock()
 		defer e.lock.Unlock()
+		e.curLeader = ""
 		if e.resetClient() {
 			klog.ErrorS(e.err, "reset client caused by checking conn")
 		}
@@ -115,14 +117,15 @@ func (e *etcdProxy) updateClient() {
 	}
 
 	curLeader := e.election.GetLeaderInfo()
+
+	e.lock.Lock()
+	defer e.lock.Unlock()
 	if curLeader == e.curLeader || curLeader == "empty" || curLeader == "" {
 		return
 	}
 	oldLeader := e.curLeader
 	e.curLeader = curLeader
 
-	e.lock.Lock()
-	defer e.lock.Unlock()
 	// close prev client
 	if e.resetClient() {
 		klog.InfoS("reset client caused by changing leader")
@@ -147,7 +150,7 @@ func (e *etcdProxy) updateClient() {
 
 		klog.InfoS("check conn to new leader", "newLeader", curLeader, "secure", tlsConfig == nil)
 
-		e.err = e.checkConn()
+		e.err = checkClientConn(e.client, e.err)
 		if e.err != nil {
 			klog.ErrorS(e.err, "failed to conn to new leader", "newLeader", e.curLeader, "secure", tlsConfig != nil)
 			if errors.Is(e.err, context.DeadlineExceeded) {
@@ -168,13 +171,21 @@ func (e *etcdProxy) updateClient() {
 }
 
 func (e *etcdProxy) checkConn() error {
+	e.lock.RLock()
+	client, lastErr := e.client, e.err
+	e.lock.RUnlock()
+	return checkClientConn(client, lastErr)
+}
+
+// checkClientConn checks the connection of client; without a client it reports lastErr
+func checkClientConn(client *clientv3.Client, lastErr error) error {
 	ctx, cancel := context.WithTimeout(context.Background(), 1*time.Second)
 	defer cancel()
-	if e.client == nil {
-		return e.err
+	if client == nil {
+		return lastErr
 	}
 
-	_, err := e.client.MemberList(ctx)
+	_, err := client.MemberList(ctx)
 	if err != nil {
 		return err
 	}
@@ -246,14 +257,15 @@ func (e *etcdProxy) Watch(ctx context.Context, key string, revision uint64) (<-c
 	}
 
 	outputCh := make(chan []*mvccpb.Event, 100)
-	closed := e.closed
+	// captured under the read lock: the goroutine below outlives it
+	closed, client := e.closed, e.client
 	go func() {
 		defer util.Recover()
 		defer close(outputCh)
 		ctx, cancel := context.WithCancel(ctx)
 		defer cancel()
 		klog.InfoS("etcd proxy start watching")
-		inputCh := e.client.Watch(ctx, key, clientv3.WithRev(int64(revision)), clientv3.WithPrefix())
+		inputCh := client.Watch(ctx, key, clientv3.WithRev(int64(revision)), clientv3.WithPrefix())
 		for {
 			select {
 			case <-closed:
